@@ -38,6 +38,10 @@ func emit(name, first string, ls ...gopacket.SerializableLayer) {
 	json.NewEncoder(os.Stdout).Encode(map[string]string{"name": "idiom:" + name, "file": "harness/cmd/mkidioms", "first": first, "hex": hex.EncodeToString(b.Bytes())})
 }
 
+func emitRaw(name, first string, b []byte) {
+	json.NewEncoder(os.Stdout).Encode(map[string]string{"name": "idiom:" + name, "file": "harness/cmd/mkidioms", "first": first, "hex": hex.EncodeToString(b)})
+}
+
 func fill(n int, b byte) []byte {
 	p := make([]byte, n)
 	for i := range p {
@@ -99,5 +103,20 @@ func main() {
 	tcp := &layers.TCP{SrcPort: 50001, DstPort: 50002, Seq: 5, Ack: 6, ACK: true, Window: 99, Options: []layers.TCPOption{
 		{OptionType: layers.TCPOptionKindSACK, OptionLength: 18, OptionData: fill(16, 0x30)},
 		{OptionType: layers.TCPOptionKindTimestamps, OptionLength: 10, OptionData: fill(8, 0x50)}}}
+	// TLS: a compact ClientHello (no session id, one cipher suite) with a server name and a second
+	// extension, so that the extension list lies in the header region of the neighbourhoods
+	host := []byte("a.io")
+	sni := append([]byte{0, byte(len(host) + 3), 0, 0, byte(len(host))}, host...) // list length, type, name length, name
+	exts := append(append([]byte{0, 0, 0, byte(len(sni))}, sni...), 0, 0x2b, 0, 3, 2, 3, 4)
+	body := append([]byte{3, 3}, fill(32, 0x60)...)
+	body = append(body, 0, 0, 2, 0xc0, 0x2f, 1, 0, 0, byte(len(exts)))
+	body = append(body, exts...)
+	hs := append([]byte{1, 0, 0, byte(len(body))}, body...)
+	emitRaw("tls-compact-client-hello-with-server-name", "LayerTypeTLS", append([]byte{0x16, 3, 1, 0, byte(len(hs))}, hs...))
+	// TLS: the ClientHello of layers/tls_test.go as TCP delivers it: the IPv4 length of that fixture
+	// ends the segment 23 bytes before the extension list does (the frame itself is longer)
+	if b, err := hex.DecodeString("16030100d1010000cd0301ffa288977c41a108342c98c27004a05d5f39efe070d512f13517b60dc4d3098500005ac014c00a0039003800880087c00fc00500350084c013c00900330032009a009900450044c00ec004002f00960041c011c007c00cc00200050004c012c00800160013c00dc003000a0015001200090014001100080006000300ff0201000060000b000403000102000a00340032000e000d0019000b000c00180009000a00160017000800060007001400150004000500120013000100020003000f0010001100230000000f000101"); err == nil {
+		emitRaw("tls-client-hello-extension-list-longer-than-the-segment", "LayerTypeTLS", b)
+	}
 	emit("ipv4-two-record-route-options-tcp-two-sack-blocks", "link:1", eth(layers.EthernetTypeIPv4), i4, tcp, gopacket.Payload(fill(3, 7)))
 }
